@@ -133,11 +133,15 @@ func dfChild(job dfJob) {
 
 func dfStage(rep *vh.Report, job dfJob, tag string) {
 	jb, _ := json.Marshal(job)
-	cmd := exec.Command(os.Args[0])
-	cmd.Env = append(os.Environ(), "C19_DF_CHILD="+string(jb), "GORACE=halt_on_error=0 exitcode=0 history_size=2")
-	var so, se bytes.Buffer
-	cmd.Stdout, cmd.Stderr = &so, &se
-	err := cmd.Run()
+	sout, serr, err, completed := runChildPatiently(rep, "I", func() *exec.Cmd {
+		cmd := exec.Command(os.Args[0])
+		cmd.Env = append(os.Environ(), "C19_DF_CHILD="+string(jb), "GORACE=halt_on_error=0 exitcode=0 history_size=2")
+		return cmd
+	})
+	if !completed {
+		return
+	}
+	so, se := bytes.NewBufferString(sout), bytes.NewBufferString(serr)
 	rp := map[string]interface{}{"op": "I", "seed": job.Seed, "goroutines": job.Goroutines, "millis": job.Millis,
 		"patterns": job.Patterns, "renew": job.Renew, "stage": tag,
 		"history": fmt.Sprintf("%d goroutines; goroutine g: df := NewDateFormat(patterns[g %% %d]); loop { text := df.FormatTime(t); df.Parse(text) } on its own instants", job.Goroutines, len(job.Patterns))}
@@ -299,17 +303,21 @@ func tzChild(seed uint64, n int) {
 }
 
 func tzStage(rep *vh.Report, seed uint64, zone string, n int) {
-	cmd := exec.Command(os.Args[0])
 	env := []string{}
 	for _, e := range os.Environ() {
 		if !strings.HasPrefix(e, "TZ=") {
 			env = append(env, e)
 		}
 	}
-	cmd.Env = append(env, "TZ="+zone, fmt.Sprintf("C19_TZ_CHILD=%d:%d", seed, n))
-	var so, se bytes.Buffer
-	cmd.Stdout, cmd.Stderr = &so, &se
-	err := cmd.Run()
+	sout, serr, err, completed := runChildPatiently(rep, "J", func() *exec.Cmd {
+		cmd := exec.Command(os.Args[0])
+		cmd.Env = append(env, "TZ="+zone, fmt.Sprintf("C19_TZ_CHILD=%d:%d", seed, n))
+		return cmd
+	})
+	if !completed {
+		return
+	}
+	so, se := bytes.NewBufferString(sout), bytes.NewBufferString(serr)
 	var out tzOut
 	if jerr := json.Unmarshal(so.Bytes(), &out); err != nil || jerr != nil {
 		rep.Fail("property", "dateutil:crash-with-host-zone", fmt.Sprintf("helper checks with TZ=%s: the process died (%v): %s", zone, err, vh.Clip(se.String(), 800)),
